@@ -49,8 +49,9 @@ var ctx = context.Background()
 
 // a frame part: samples for one group at the given second stamps
 type part struct {
-	group int // 0 = A, 1 = B, 2 = free virtual
-	secs  []int
+	group  int // 0 = A, 1 = B, 2 = free virtual
+	secs   []int
+	masked bool // present in the frame's backing arrays but filtered out with KeepKeys
 }
 
 type step struct {
@@ -73,9 +74,10 @@ type script struct {
 func gen() []script {
 	w := func(ps ...part) step { return step{kind: "write", parts: ps} }
 	c := step{kind: "commit"}
-	A := func(s ...int) part { return part{0, s} }
-	B := func(s ...int) part { return part{1, s} }
-	V := func(s ...int) part { return part{2, s} }
+	A := func(s ...int) part { return part{group: 0, secs: s} }
+	B := func(s ...int) part { return part{group: 1, secs: s} }
+	V := func(s ...int) part { return part{group: 2, secs: s} }
+	M := func(p part) part { p.masked = true; return p }
 	return []script{
 		{"one group, one frame", []session{{[]int{0}, 10, false, []step{w(A(10, 11, 12)), c}}}},
 		{"one group, two frames, two commits", []session{{[]int{0}, 10, false, []step{w(A(10, 11)), c, w(A(12, 13, 14)), c}}}},
@@ -97,6 +99,14 @@ func gen() []script {
 		{"second session overlaps group B only, auto commit", []session{
 			{[]int{1}, 10, false, []step{w(B(10, 11, 12)), c}},
 			{[]int{0, 1}, 11, true, []step{w(A(11, 12), B(11, 12))}}}},
+		{"second session starts earlier and runs into committed data of group A", []session{
+			{[]int{0}, 10, false, []step{w(A(10, 11, 12)), c}},
+			{[]int{0, 1}, 5, false, []step{w(A(5, 6, 11), B(5, 6, 11)), c}}}},
+		{"second session starts earlier and runs into committed data of group B", []session{
+			{[]int{1}, 10, false, []step{w(B(10, 11, 12)), c}},
+			{[]int{1}, 5, false, []step{w(B(5, 6)), c, w(B(11)), c}}}},
+		{"frames with filtered-out entries (KeepKeys)", []session{
+			{[]int{0, 1}, 10, false, []step{w(A(10, 11), M(B(10, 11))), c, w(M(A(12)), B(12, 13)), c}}}},
 		{"only group B", []session{{[]int{1}, 5, false, []step{w(B(5, 6, 7)), c, w(B(8)), c}}}},
 	}
 }
@@ -136,8 +146,24 @@ func vals(g int, s []int) telem.Series {
 	return telem.NewSeries(v)
 }
 
-func frameOf(c chans, ps []part) (keys []uint32, series []telem.Series) {
+func frameOf(c chans, ps []part) (keys []uint32, series []telem.Series, keep []uint32) {
+	defer func() {
+		masked := false
+		for _, p := range ps {
+			masked = masked || p.masked
+		}
+		if !masked {
+			keep = nil
+		}
+	}()
 	for _, p := range ps {
+		if !p.masked {
+			if p.group == 2 {
+				keep = append(keep, c.free)
+			} else {
+				keep = append(keep, c.idx[p.group], c.dat[p.group])
+			}
+		}
 		if p.group == 2 {
 			keys = append(keys, c.free)
 			series = append(series, vals(2, p.secs))
@@ -193,8 +219,12 @@ func runCesium(db *cesium.DB, c chans, sc script) outcome {
 			if len(ps) == 0 {
 				continue
 			}
-			ks, ss := frameOf(c, ps)
-			_, err := w.Write(telem.MultiFrame(ks, ss))
+			ks, ss, keep := frameOf(c, ps)
+			fr := telem.MultiFrame(ks, ss)
+			if keep != nil {
+				fr = fr.KeepKeys(keep)
+			}
+			_, err := w.Write(fr)
 			failed = failed || err != nil
 		}
 		err = w.Close()
@@ -243,8 +273,12 @@ func runClusterInner(nd mock.Node, c chans, sc script) outcome {
 				out = append(out, fmt.Sprintf("s%d commit %s", si, short(err)))
 				continue
 			}
-			ks, ss := frameOf(c, st.parts)
-			if !within(opLimit, func() { _, _ = w.Write(frame.NewMulti(channel.KeysFromUint32(ks), ss)) }) {
+			ks, ss, keep := frameOf(c, st.parts)
+			fr := frame.NewMulti(channel.KeysFromUint32(ks), ss)
+			if keep != nil {
+				fr = fr.KeepKeys(channel.KeysFromUint32(keep))
+			}
+			if !within(opLimit, func() { _, _ = w.Write(fr) }) {
 				return append(out, fmt.Sprintf("s%d write of %v HUNG", si, st.parts))
 			}
 		}
@@ -526,6 +560,14 @@ func runOne(r *vk.Run, st *stats, cf config, sc script) {
 		}
 	}
 	data := []uint32{c.idx[0], c.dat[0], c.idx[1], c.dat[1]}
+	// A commit the engine refuses may have been applied to some of the session's channels
+	// and not to others, in an order the engine does not fix (that is C02/C05 territory):
+	// what such a session leaves behind is not compared.
+	for k, w := range wl {
+		if strings.Contains(k, "commit") && w == "err" {
+			goto unknown
+		}
+	}
 	// each leaseholder's own engine holds exactly its channels' samples
 	for g, l := range []int{cf.la, cf.lb} {
 		keys := []uint32{c.idx[g], c.dat[g]}
@@ -591,6 +633,7 @@ func runOne(r *vk.Run, st *stats, cf config, sc script) {
 			}
 		}
 	}
+unknown:
 	// unknown channels are refused at open, through every gateway
 	for gw := 1; gw <= cf.nodes; gw++ {
 		for _, bad := range []uint32{uint32(channel.NewKey(node.Key(cf.la), 900)), uint32(channel.NewKey(node.Key(cf.nodes), 901)), uint32(channel.NewKey(node.KeyFree, 902))} {
@@ -689,7 +732,7 @@ func main() {
 	// quick: 1-2 node configurations in full, 3-node ones for the scripts touching both groups
 	for _, cf := range cfs {
 		for si, sc := range scs {
-			if r.Quick() && cf.nodes == 3 && !(si == 4 || si == 6 || si == 10) {
+			if r.Quick() && cf.nodes == 3 && !(si == 4 || si == 6 || si == 10 || si == 13 || si == 15) {
 				continue
 			}
 			jobs <- job{cf, sc}
@@ -709,7 +752,7 @@ func main() {
 	r.Set("exhaustive", skipped == 0)
 	r.Set("configurations", len(cfs))
 	r.Set("scripts", len(scs))
-	r.Set("rule", "configurations: nodes 1-3 x leaseholder of group A x leaseholder of group B x writer gateway (free virtual channel always present), iterators through every node; scripts: gen() (13 write scripts: one/two sessions, one or both groups, frames of one group / mixed / mixed with the free channel, explicit and auto commit, uncommitted tail, later / back-filling / overlapping second session); per run: acknowledgement pattern vs a single cesium engine, every leaseholder's engine vs that engine, 4 key sets x 6 traversals through every node vs that engine, opens on 3 unknown keys through every gateway. distinct_nontrivial = distinct acknowledgement patterns")
+	r.Set("rule", "configurations: nodes 1-3 x leaseholder of group A x leaseholder of group B x writer gateway (free virtual channel always present), iterators through every node; scripts: gen() (16 write scripts: one/two sessions, one or both groups, frames of one group / mixed / mixed with the free channel, explicit and auto commit, uncommitted tail, later / back-filling / overlapping second session, a session running into committed data at commit time, frames with entries filtered out by KeepKeys); per run: acknowledgement pattern vs a single cesium engine, every leaseholder's engine vs that engine, 4 key sets x 6 traversals through every node vs that engine, opens on 3 unknown keys through every gateway. distinct_nontrivial = distinct acknowledgement patterns")
 	for i := 0; i < len(scs); i += 4 {
 		r.Sample(map[string]string{"script": scs[i].name})
 	}
